@@ -7,8 +7,16 @@ A   the real PoWContext::verify of each variant runs on EVERY ascending K-subset
     cycle (orders, duplicates, out of range, wrong count) go through the trace spec.
 B   solver-found cycles and near misses in larger graphs, recorded with the real verdict, are
     validated by TLC against Accept (spec/trace/CuckooTrace.tla); Proof packing cases likewise.
+S   the node's entry point pow::verify_size(&BlockHeader): MC_CuckooSize.tla models header ->
+    create_pow_context(height, edge_bits, nonces.len()) -> verify with the nonce COUNT and shape chosen
+    by the sender, checks "accept iff genuine cycle of exactly the chain type's proof size" and prints
+    the case plans (chain type x header version x edge-bits class x length class x shape x graph
+    definition) with the expected verdict; the harness realises each plan in real header-seeded
+    graphs (genuine cycles of 1, 2, 4, P-2 .. P+2 edges, open walks, two cycles, foreign-definition
+    cycles) inside real BlockHeaders at the first and last height of each version era and calls
+    verify_size; verdict vs plan, and TLC re-decides every event on the real endpoints.
 """
-import json, os, re, itertools, random, shutil
+import json, os, re, itertools, random, shutil, threading
 import vlib
 from vlib import Report, ToolError, log
 
@@ -173,6 +181,110 @@ def py_shape(g, tup):
     return "one_component_wrong_kind" if k == 1 else "%d_components" % k
 
 
+
+# ----------------------------------------------------------------------------------------------
+# S: pow::verify_size
+
+MONO = ("cuckaroom", "cuckarooz")
+
+
+def vsize_signature(e):
+    """narrow signature of a verify_size event whose real verdict is not the plan's"""
+    var = e["sv"] if e["sv"] != "none" else "no_definition"
+    L, P, v = e["L"], e["P"], e["verdict"]
+    if v in ("panic", "hang"):
+        return "cuckoo:verify_size:%s:%s:len=%d" % (var, v, L)
+    if v == "accept":
+        if e["shape"] == "cycle" and e["gof"] == e["sv"]:
+            return "cuckoo:verify_size:%s:wrong_length_cycle_accepted:len=%d" % (var, L)
+        if e["shape"] == "cycle":
+            return "cuckoo:verify_size:%s:%s_cycle_accepted:%s:v%d" % (var, e["gof"], e["chain"], e["version"])
+        return "cuckoo:verify_size:%s:non_cycle_accepted:shape=%s:len=%d" % (var, e["shape"], L)
+    return "cuckoo:verify_size:%s:genuine_cycle_refused:%s:v%d" % (var, e["chain"], e["version"])
+
+
+def vsize_plans(wd):
+    r = vlib.tlc("mc/MC_CuckooSize", workers=1, timeout=600)
+    if r.invariant_violated:
+        print(r.out[-3000:])
+        raise ToolError("MC_CuckooSize: invariant %s violated inside the model" % r.invariant_violated)
+    vlib.tlc_ok(r, "MC_CuckooSize")
+    acts = r.action_counts()
+    for a in ("CreateContext", "VerifyCtx"):
+        if acts.get(a, (0, 0))[0] == 0:
+            raise ToolError("MC_CuckooSize: action %s never taken" % a)
+    plans = [json.loads(x) for x in r.printed("PLAN")]
+    if len(plans) < 500:
+        raise ToolError("MC_CuckooSize printed too few plans (%d)" % len(plans))
+    # the plan set must tell the consensus constant from the context's own size, for every definition
+    for var in VARIANTS:
+        if not any(p["sv"] == var and p["vacuous"] != p["expect"] for p in plans):
+            raise ToolError("no plan for %s separates the required length from the header's nonce count" % var)
+    pp = os.path.join(wd, "vsize_plans.ndjson")
+    vlib.write_ndjson(pp, plans)
+    return r, plans, pp
+
+
+def vsize_judge(rep, events, seen_sigs):
+    """verdict vs the plan's expectation; returns the events to hand to the trace spec (those that
+    disagree go there with the expected verdict: the realisation of the plan is still checked)"""
+    to_trace, n_bad = [], 0
+    for e in events:
+        want_p = 8 if e["chain"] == "automated" else 42
+        if e["P"] != want_p:
+            sig = "cuckoo:verify_size:proofsize:%s:is=%d" % (e["chain"], e["P"])
+            if sig not in seen_sigs:
+                seen_sigs.add(sig)
+                rep.violation(sig, {"kind": "vsize", "event": e}, "global::proofsize() is %d on %s, the required cycle length is %d" % (e["P"], e["chain"], want_p))
+            n_bad += 1
+            continue
+        if e["verdict"] == e["expect"]:
+            to_trace.append(e)
+            continue
+        n_bad += 1
+        sig = vsize_signature(e)
+        if sig not in seen_sigs:
+            seen_sigs.add(sig)
+            rep.violation(sig, {"kind": "vsize", "event": e},
+                          "pow::verify_size says %s (model: %s) for a %s header at height %d (version %d, %d edge bits, definition %s) carrying %d nonces (required %d), shape %s in the %s graph: %s" % (
+                              e["verdict"], e["expect"], e["chain"], e["height"], e["version"], e["eb"], e["sv"], e["L"], e["P"], e["shape"], e["gof"], e["nonces"][:8]))
+        if e["verdict"] in ("accept", "reject"):
+            to_trace.append(dict(e, verdict=e["expect"], judged="mismatch"))
+    return to_trace, n_bad
+
+
+def vsize_validate(wd, evs, what):
+    """TLC re-decides every event on the real endpoints. All events given here carry verdict == expect, so
+    a rejection means the harness did not build what the plan says (or the two disagree): tool error."""
+    if not evs:
+        return 0
+    p = os.path.join(wd, "trace_vsize_%s.ndjson" % what)
+    vlib.write_ndjson(p, evs)
+    idx, r = validate_trace(p, "vsize " + what)
+    if idx is not None:
+        bad = evs[idx - 1] if idx <= len(evs) else None
+        raise ToolError("verify_size event %d does not realise its plan (or plan and Accept disagree on the real endpoints): %s" % (
+            idx, json.dumps({k: v for k, v in (bad or {}).items() if k != "ends_by"})[:600]))
+    return r.distinct
+
+
+def vsize_coverage(events):
+    """measured: per selected definition, which wrong-length genuine cycles went through verify_size"""
+    cov = {}
+    for e in events:
+        if e["shape"] == "cycle" and e["gof"] == e["sv"]:
+            c = cov.setdefault(e["sv"], {"lt": 0, "eq": 0, "gt": 0, "two": 0, "self_loop": 0, "lengths": set()})
+            L, P = e["L"], e["P"]
+            c["lengths"].add(L)
+            c["lt" if L < P else ("eq" if L == P else "gt")] += 1
+            c["two"] += 1 if L == 2 else 0
+            c["self_loop"] += 1 if L == 1 else 0
+    for var in VARIANTS:
+        c = cov.get(var)
+        if not c or min(c["lt"], c["eq"], c["gt"], c["two"]) == 0 or (var in MONO and c["self_loop"] == 0):
+            raise ToolError("verify_size stage: no genuine cycle of some length class was realised for %s (%s)" % (var, c))
+    return {k: dict(v, lengths=sorted(v["lengths"])) for k, v in cov.items()}
+
 # ----------------------------------------------------------------------------------------------
 
 def run_replay(rep, wd, replay):
@@ -199,6 +311,16 @@ def run_replay(rep, wd, replay):
         info = hjson(vlib.harness(["cuckoo", "ser", "--out", outp, "--seed", obj.get("seed", 1)]))
         for mm in info["mismatches"]:
             rep.violation("cuckoo:ser:%s" % mm["what"], {"kind": "ser", "mismatch": mm}, json.dumps(mm)[:300])
+    elif case.get("kind") == "vsize":
+        ep = os.path.join(wd, "replay_vsize_in.ndjson")
+        vlib.write_ndjson(ep, [case["event"]])
+        outp = os.path.join(wd, "replay_vsize_out.ndjson")
+        info = hjson(vlib.harness(["cuckoo", "size", "--events", ep, "--out", outp], env={"VERIF_HANG_MS": 15000}))
+        evs = vlib.read_ndjson(outp)
+        if info["hangs"]:
+            rep.violation(obj["signature"], case, "verify_size does not return")
+        to_trace, _ = vsize_judge(rep, evs, set())
+        vsize_validate(wd, to_trace, "replay")
     elif case.get("kind") == "pin":
         info = hjson(vlib.harness(["cuckoo", "pin"]))
         if not info["ok"]:
@@ -240,6 +362,44 @@ def run(tier, replay):
             rep.violation("cuckoo:cuckatoo:published_vector_refused", {"kind": "pin"}, "; ".join(real))
         else:
             raise ToolError("edge definitions do not reproduce the repository's vectors: %s" % pin["fails"])
+
+    # (S) the node's entry point pow::verify_size: TLC's plans realised in real headers. The trace
+    #     validation of these events runs in the background while the other stages go on.
+    rS, plans, plans_p = vsize_plans(wd)
+    vs_runs, vs_events, vs_seen = [], [], set()
+    vs_to_trace, vs_bad = [], 0
+    for i, eb in enumerate((9, 10, 11, 12) if thorough else (9 + seed % 3,)):
+        vp = os.path.join(wd, "vsize_%d.ndjson" % eb)
+        info = hjson(vlib.harness(["cuckoo", "size", "--plans", plans_p, "--out", vp, "--seed", seed + 7919 * i, "--eb", eb, "--heights", 2], timeout=900))
+        evs = vlib.read_ndjson(vp)
+        for e in evs:
+            if e["verdict"] == "hang":       # re-check with a long limit before calling it a hang
+                hp = os.path.join(wd, "vsize_hang_in.ndjson")
+                vlib.write_ndjson(hp, [e])
+                hop = os.path.join(wd, "vsize_hang_out.ndjson")
+                vlib.harness(["cuckoo", "size", "--events", hp, "--out", hop], env={"VERIF_HANG_MS": 12000})
+                again = vlib.read_ndjson(hop)
+                if again:
+                    e.update(verdict=again[0]["verdict"])
+        tt, nb = vsize_judge(rep, evs, vs_seen)
+        vs_to_trace += tt
+        vs_bad += nb
+        vs_events += evs
+        vs_runs.append({k: v for k, v in info.items() if k != "chains"})
+        vs_runs[-1]["edge_bits"] = eb
+        vs_runs[-1]["headers_tried"] = {c["chain"]: sum(x["headers_tried"] for x in c["searches"]) for c in info["chains"]}
+        if info["skipped_by_reason"].get("shape not found in the headers tried", 0) > len(evs) // 20:
+            raise ToolError("verify_size stage: too many plans not realised: %s" % info["skipped_by_reason"])
+    vs_cov = vsize_coverage(vs_events)
+    vs_result = {}
+
+    def vs_bg():
+        try:
+            vs_result["states"] = vsize_validate(wd, vs_to_trace, "all")
+        except BaseException as ex:            # re-raised on the main thread
+            vs_result["error"] = ex
+    vs_thread = threading.Thread(target=vs_bg)
+    vs_thread.start()
 
     # (1) tiny graphs: edge tables (inputs of the model), seeds pre-selected for cycle content
     per4, with4 = (60, 40) if thorough else (26, 17)
@@ -431,7 +591,10 @@ def run(tier, replay):
     bad1 = dict(good, verdict="reject")
     bad2 = json.loads(json.dumps(good)); bad2["ends"][0][1] ^= 2
     bad3 = json.loads(json.dumps(pk)); bad3["bytes"][0] ^= 1
-    for i, b in enumerate((bad1, bad2, bad3)):
+    # ... and a refused wrong-length genuine cycle reported as accepted (verify_size events)
+    wl = next(e for e in vs_events if e["shape"] == "cycle" and e["gof"] == e["sv"] and e["L"] not in (e["P"], 1) and e["verdict"] == "reject")
+    bad4 = dict(wl, verdict="accept")
+    for i, b in enumerate((bad1, bad2, bad3, bad4)):
         p = os.path.join(wd, "selftest_%d.ndjson" % i)
         vlib.write_ndjson(p, [good, pk, b])
         idx, _ = validate_trace(p, "selftest")
@@ -439,6 +602,11 @@ def run(tier, replay):
             raise ToolError("selftest %d: a corrupted record was not refused by CuckooTrace (binding is vacuous)" % i)
 
     n_valid, tstates = validate_events(rep, wd, events, "all")
+    vs_thread.join()
+    if "error" in vs_result:
+        raise vs_result["error"]
+    tstates += vs_result["states"]
+    n_valid += len(vs_to_trace)
 
     kinds = {}
     for e in events:
@@ -447,7 +615,7 @@ def run(tier, replay):
             kinds[kk] = kinds.get(kk, 0) + 1
     sample_cycle = next(((gid, sorted(cs)[0]) for gid, cs in sorted(cyc.items()) if cs), None)
     rep.coverage = {
-        "states": states + tstates, "transitions": trans + tstates,
+        "states": states + tstates + rS.distinct, "transitions": trans + tstates + rS.generated,
         "traces_validated_against_impl": n_valid + len(results),
         "samples": [
             {"tiny_graph": {"variant": graphs[sample_cycle[0]]["variant"], "seed": str(graphs[sample_cycle[0]]["seed"]), "E": graphs[sample_cycle[0]]["E"],
@@ -462,15 +630,23 @@ def run(tier, replay):
                         "graphs_compared": len(results), "graphs_exhaustive_and_equal": graphs_equal,
                         "graphs_exhaustive": sum(1 for x in results if (graphs[x["gid"]]["N"] == 16 or x["gid"] in full5)),
                         "real_verify_calls": calls, "incomplete_graphs_due_to_hang_budget": incomplete},
+        "verify_size": {"plans": len(plans), "plan_model": {"states": rS.distinct, "transitions": rS.generated, "action_counts": {k: v[0] for k, v in rS.action_counts().items()}},
+                        "plans_separating_required_length_from_nonce_count": sum(1 for p in plans if p["vacuous"] != p["expect"]),
+                        "events": len(vs_events), "events_disagreeing_with_plan": vs_bad, "runs": vs_runs,
+                        "genuine_cycles_through_verify_size": vs_cov,
+                        "by_shape_and_verdict": {"%s:%s" % k: v for k, v in sorted(__import__("collections").Counter((e["shape"], e["verdict"]) for e in vs_events).items())},
+                        "sample": {k: v for k, v in wl.items() if k != "ends_by"}},
         "explicit_tuples": len(case_res), "direction_b": rec, "selection_table": sel, "verify_events_by_kind": kinds,
         "proof_ser": {k: ser[k] for k in ("events", "pack_checks", "padding_cases", "difficulty_cases")},
         "hangs_observed": len(hang_list), "hangs_confirmed_12s": confirmed_hangs, "panics_observed": len(panic_list),
         "pin_checks": pin["checks"],
-        "checker_cmd": "tlc mc/MC_Cuckoo (GRAPHS=...); tlc trace/CuckooTrace (TRACE=...)",
+        "checker_cmd": "tlc mc/MC_Cuckoo (GRAPHS=...); tlc mc/MC_CuckooSize; tlc trace/CuckooTrace (TRACE=...)",
     }
     rep.assumptions = [
         "the graph (edge index -> endpoints) is an input of the model, computed by the harness's own siphash-2-4 / siphash-block / blake2b key derivation; it is pinned only by the repository's published vectors (4 siphash values, 3 block values, 9 known 42-cycles at 19/29 bits)",
-        "K = 8 (ChainTypes::AutomatedTesting proof size) for all cycle checks; 42-cycles only through the pinned vectors",
+        "K = 8 (ChainTypes::AutomatedTesting proof size) for the exhaustive and near-miss cycle checks; 42-edge (and 1..46-edge) cycles through pow::verify_size in 2^9..2^12-edge graphs and through the pinned vectors",
+        "verify_size on Mainnet/Testnet headers above 29 edge bits (cuckatoo) only with nonce lists that need no cycle search (2^30-edge graph); cuckatoo's wrong-length cycles go through verify_size on the AutomatedTesting/UserTesting chain types, same code",
+        "the header version of a height is taken from consensus::header_version (its schedule is C04's subject)",
         "exhaustive iff on 16-edge graphs (and 32-edge graphs in the thorough tier); larger graphs through solver-found cycles and near misses only",
         "blake2b, graph_weight used as primitives in the difficulty formula; nonces >= 2^31 are logged to TLC as 'out of range'",
     ]
